@@ -378,7 +378,21 @@ func (w *world) nextRequest(r *rng.R, c int) []byte {
 		}
 		return out
 	}
-	switch r.Intn(22) {
+	switch r.Intn(24) {
+	case 22: // a split request one of whose fragments is redirected
+		w.tagset["split-redirect"] = true
+		mark := r.Pick("mov", "ask", "mov", "movx")
+		switch r.Intn(3) {
+		case 0:
+			return bulk([]byte("mget"), key("a"), key("b"+mark), key("c"))
+		case 1:
+			return bulk([]byte("del"), key("a"+mark), key("b"), key("c"))
+		default:
+			return bulk([]byte("mset"), key("a"), []byte("1"), key("b"+mark), []byte("2"), key("c"), []byte("3"))
+		}
+	case 23:
+		w.tagset["split-redirect"] = true
+		return bulk([]byte("mget"), key("amov"), key("bmov"))
 	case 0:
 		w.tagset["local-reply"] = true
 		return bulk([]byte("PING"))
@@ -567,7 +581,70 @@ func runHistory(seed uint64, idx int, quick bool) (in sx.V, out sx.V, tags []str
 	return w.inputSx(), sx.L(w.obs...), tags
 }
 
+// runDeepHistory: one slow request at the head of a client's queue and more than iovMax (1024)
+// completed replies behind it: the whole backlog must be flushed, in order, when the head completes.
+func runDeepHistory(seed uint64, idx int) (in sx.V, out sx.V, tags []string) {
+	r := rng.New(seed, "loop-deep", idx)
+	nodes := []string{"10.1.0.1:7000", "10.1.0.2:7000", "10.1.0.3:7000"}
+	cfg := worldCfg{limit: 1 << 20, maxConns: 1, nodes: nodes, undial: map[string]bool{}}
+	cfg.ranges = [][3]interface{}{{0, 8191, nodes[0]}, {8192, 16383, nodes[1]}}
+	w, err := newWorld(cfg)
+	if err != nil {
+		return sx.L(), sx.L(sx.S("setup-error")), nil
+	}
+	defer w.s.Close()
+	w.connect("127.0.0.1")
+	get := func(onFirst bool) []byte {
+		w.reqSeq[0]++
+		id := fmt.Sprintf("c0r%d", w.reqSeq[0])
+		for j := 0; ; j++ {
+			k := id + "x" + strconv.Itoa(j)
+			if (int(hashkit.Hash(k)) <= 8191) == onFirst {
+				return []byte("*2\r\n$3\r\nget\r\n" + string(resp.Bulk([]byte(k))))
+			}
+		}
+	}
+	n := 1024 + r.Range(1, 200)
+	b := get(true)
+	for i := 0; i < n; i++ {
+		b = append(b, get(false)...)
+	}
+	w.clientData(0, b)
+	w.runTasks()
+	w.handshakes(nil)
+	// the second node answers everything (in two or three reads), then the first node answers
+	var second, first *stepper.Peer
+	for _, p := range w.s.Backends {
+		if p.Addr == nodes[1] {
+			second = p
+		} else if p.Addr == nodes[0] {
+			first = p
+		}
+	}
+	if second == nil || first == nil {
+		return w.inputSx(), sx.L(sx.S("setup-error")), nil
+	}
+	w.answer(nil, second, r.Range(100, 900))
+	w.answer(nil, second, 5000)
+	w.answer(nil, first, 10)
+	w.runTasks()
+	return w.inputSx(), sx.L(w.obs...), []string{"deep-backlog"}
+}
+
 func suiteLoop(c *Ctx) {
+	deep := 1
+	if !c.Quick() {
+		deep = 6
+	}
+	for i := 0; i < deep; i++ {
+		var in, out sx.V
+		var tags []string
+		o := Safe(func() sx.V { in, out, tags = runDeepHistory(c.Seed, i); return out })
+		if in == nil {
+			in = sx.L()
+		}
+		c.Emit("loop", in, o, tags...)
+	}
 	n := 300
 	if !c.Quick() {
 		n = 8000
